@@ -21,6 +21,8 @@ type chooser struct {
 	timed  bool // windows of a few ticks and T steps
 	wild   int  // 0 = always possible steps; n>0: one step in n is not checked for possibility
 	bad    bool // loads that fail in Provision may occur
+	lat    bool // a configuration with unhealthy_latency was loaded: no clock steps from now on
+	slow   int  // slow answers used (they cost real time)
 	n      int
 	ticks  int
 	loaded bool
@@ -88,6 +90,10 @@ func (c *chooser) loadStep(K int) string {
 	if r.Chance(1, 6) {
 		return "Y" + text[1:] // the same options, upstreams from a dynamic source
 	}
+	if !c.timed && c.ticks == 0 && p == 1 && r.Chance(1, 7) {
+		c.lat = true
+		return text + fmt.Sprintf(":%d:1", r.Intn(3)) // unhealthy_latency configured
+	}
 	if r.Chance(1, 8) {
 		text += fmt.Sprintf(":%d", 1+r.Intn(3)) // the first upstream has its own max_requests
 	}
@@ -141,7 +147,13 @@ func (c *chooser) next(k *kase) (step, bool) {
 				}
 			case x < 58:
 				if len(parked) > 0 {
-					text = fmt.Sprintf("O:%d:%s", parked[r.Intn(len(parked))], r.Pick(answerPick))
+					rid := parked[r.Intn(len(parked))]
+					out := r.Pick(answerPick)
+					if q := k.reqs[rid]; q.cfg.st.lat && q.cfg.st.p && c.slow < 2 && r.Chance(1, 3) {
+						out = "sl"
+						c.slow++
+					}
+					text = fmt.Sprintf("O:%d:%s", rid, out)
 				}
 			case x < 64:
 				if len(parked) > 0 {
@@ -165,7 +177,7 @@ func (c *chooser) next(k *kase) (step, bool) {
 					text = "C"
 				}
 			default:
-				if (c.timed || x < 89) && c.ticks < 90 {
+				if (c.timed || x < 89) && c.ticks < 90 && !c.lat {
 					n := 1 + r.Intn(2)
 					if !c.timed {
 						n = 1 + r.Intn(5)
